@@ -123,6 +123,11 @@ func (c *ChainIndex[T]) UpdateLastAccepted(ctx context.Context, blk T) error {
 	}
 
 	deleteBlkID, err := c.GetBlockIDAtHeight(ctx, expiryHeight)
+	if errors.Is(err, database.ErrNotFound) {
+		// The block at expiryHeight may never have been stored (first accept after state sync) or may
+		// already have been removed (restart with a smaller window), so there is nothing to prune.
+		return batch.Write()
+	}
 	if err != nil {
 		return err
 	}
